@@ -61,7 +61,7 @@ def run(ctx):
     warnings.simplefilter("ignore")
 
     # ================= rouwenhorst
-    ns = list(range(2, 10)) + [39, 40] + [rng.randrange(2, 41) for _ in range(120 if thorough else 30)]
+    ns = list(range(2, 10)) + [39, 40] + [rng.randrange(2, 41) for _ in range(120 if thorough else 30)] + [5, 5, 5, 9, 9]   # repeated n with other parameters: stale per-n caches
     cases, meta, fcases, fmeta = [], [], [], []
     for n in ns:
         rho, sigma, std_y, mu = draw_ar1(rng)
@@ -121,7 +121,7 @@ def run(ctx):
             ctx.fail("rouwenhorst_rejects", "n < 2 accepted", {"function": "rouwenhorst", "n": n}, "value", "exception")
 
     # ================= tauchen
-    ns = list(range(2, 8)) + [39, 40] + [rng.randrange(2, 41) for _ in range(90 if thorough else 22)]
+    ns = list(range(2, 8)) + [39, 40] + [rng.randrange(2, 41) for _ in range(90 if thorough else 22)] + [5, 5, 5, 9, 9]
     cases, meta = [], []
     for n in ns:
         rho, sigma, std_y, mu = draw_ar1(rng)
